@@ -549,7 +549,12 @@ func (hs *c36Hist) judgeDest(how string, peer []netip.Addr, ap netip.AddrPort, b
 			// the peer reported it itself in a host update to this lighthouse
 			r.Violation("C36/"+how+"-from-host-update-denied-by-range-of-secondary-overlay-address", fmt.Sprintf("%s: %s, reported by multi-address peer %v in a host update, is denied by the remote_allow_ranges rules that apply to its overlay address(es) %v", how, ap, peer, by), hs.replay())
 		} else {
-			r.Violation("C36/"+how+"-denied-by-range-of-one-of-several-overlay-addresses", fmt.Sprintf("%s: %s for peer %v is denied by the remote_allow_ranges rules that apply to its overlay address(es) %v", how, ap, peer, by), hs.replay())
+			// Open cell, counted but not judged: the statement speaks of "the peer's overlay range" (singular). For a peer
+			// with several overlay addresses in ranges with conflicting rules it does not say which range governs data
+			// that was given for one address (a reply / static entry / punch request about B) once the list is shared
+			// with the peer's other address A. The code applies the range of the address the data was given for. A
+			// filter that is dropped altogether still lands under the judged keys above (denied for all addresses).
+			r.Count(how+"_denied_only_by_range_of_another_overlay_address_of_the_peer(not judged)", 1)
 		}
 	}
 	if blocked != nil && blocked[ap] {
